@@ -729,6 +729,108 @@ def spec_parse(toks):
                 state = 'done'
 
 
+def spec_parse_triples(toks):
+    """recogniser for the triple conjunction  Role '(' Source ',' Target? ')' ('^' ...)*  with the
+    documented spacing variants; toks as in spec_parse (lexed with the triple pattern)"""
+    n = len(toks)
+
+    def eof():
+        if n == 0:
+            return ('err', 0, 0)
+        t = toks[-1]
+        return ('err', t[2], t[3] + len(t[1]))
+
+    def err(i):
+        return ('err', toks[i][2], toks[i][3])
+
+    def need(i, ty):
+        if i >= n:
+            return eof()
+        if toks[i][0] != ty:
+            return err(i)
+        return None
+    i, out, strip = 0, [], False
+    while True:
+        e = need(i, 'SYMBOL')
+        if e:
+            return e
+        role = toks[i][1]
+        if strip and role.startswith('^'):
+            role = role[1:]
+        if not role.startswith(':'):
+            role = ':' + role
+        i += 1
+        e = need(i, 'LPAREN')
+        if e:
+            return e
+        i += 1
+        e = need(i, 'SYMBOL')
+        if e:
+            return e
+        src, comma, rest = toks[i][1].partition(',')
+        i += 1
+        target = None
+        if rest:
+            target = rest
+        elif comma:
+            if i < n and toks[i][0] in ('SYMBOL', 'STRING'):
+                target = toks[i][1]
+                i += 1
+        elif i < n and toks[i][0] == 'SYMBOL':
+            tx = toks[i][1]
+            if tx == ',':
+                i += 1
+                if i < n and toks[i][0] in ('SYMBOL', 'STRING'):
+                    target = toks[i][1]
+                    i += 1
+            elif tx.startswith(','):
+                target = tx[1:]
+                i += 1
+            else:
+                return err(i)
+        e = need(i, 'RPAREN')
+        if e:
+            return e
+        i += 1
+        out.append((src, role, target))
+        if i >= n:
+            return ('ok', out)
+        if toks[i][0] != 'SYMBOL' or not toks[i][1].startswith('^'):
+            return ('ok', out)
+        if toks[i][1] == '^':
+            i += 1
+            strip = False
+        else:
+            strip = True
+
+
+def c07_triples_gen(rng):
+    import corr
+    k = rng.random()
+    if k < 0.6:
+        s = corr.triples_string(rng)
+        if maybe(rng, 0.5):
+            s = gen.perturb(rng, s)
+    else:
+        s = ' '.join(rng.choice(corr.TRIPLE_TOKENS) for _ in range(rng.randint(0, 9)))
+    return {'s': s}
+
+
+def c07_triples_check(case):
+    s = case['s']
+    toks = [(t.type, t.text, t.lineno, t.offset) for t in _lexer.lex(s, pattern=_lexer.TRIPLE_RE)]
+    want = spec_parse_triples(toks)
+    try:
+        got = ('ok', penman.parse_triples(s))
+    except penman.DecodeError as e:
+        got = ('err', e.lineno, e.offset)
+    except Exception as e:  # noqa: BLE001
+        return f'parse_triples raised {type(e).__name__}: {e}'
+    if got != want:
+        return f'parse_triples {got!r} != recogniser {want!r} on {s!r}'
+    return None
+
+
 def c07_gen(rng):
     k = rng.random()
     if k < 0.5:
@@ -1783,7 +1885,7 @@ ORACLES = {
     'C04': [(c04_gen, c04_check)],
     'C05': [(c05_gen, c05_check)],
     'C06': [(c06_gen, c03_check), (c06_total_gen, c06_total_check)],
-    'C07': [(c07_gen, c07_check)],
+    'C07': [(c07_gen, c07_check), (c07_triples_gen, c07_triples_check)],
     'C08': [(c08_gen, c08_check)],
     'C09': [(c09_gen, c09_check)],
     'C10': [(c10_gen, c10_check)],
@@ -1842,3 +1944,168 @@ if __name__ == '__main__':
         print(f'{pid}: {ran} cases, {time.time()-t0:.1f}s, known={list(known)}, fail={None if not fail else fail[1][:600]}')
         if fail:
             print('   case:', json.dumps(fail[0], ensure_ascii=False)[:1200])
+
+
+# ======================================================================= directed search
+
+def _graph_from_op(op):
+    if 'graph' in op:
+        return op['graph']
+    return None
+
+
+def _trees_from_text(s):
+    out = []
+    try:
+        for t in penman.iterparse(s):
+            out.append(t)
+    except Exception:  # noqa: BLE001
+        pass
+    return out
+
+
+def derive_cases(pid, op):
+    """property-oracle cases derived from an operation on which model and code disagree
+    (or from any operation): list of (check, case)"""
+    name = op['op']
+    cases = []
+    models = [op.get('model')] if op.get('model') is not None else ['default', 'amr']
+    trees = []
+    texts = []
+    if 'tree' in op:
+        trees.append((py_node(op['tree']['node']), dict((k, v) for k, v in op['tree'].get('metadata', []))))
+    if 's' in op and isinstance(op['s'], str):
+        texts.append(op['s'])
+    if op.get('lines') is not None:
+        texts.append('\n'.join(l.rstrip('\n') for l in op['lines']))
+    if name == 'main':
+        texts += list(op['inputs'])
+    for s in texts:
+        for t in _trees_from_text(s):
+            trees.append((t.node, dict(t.metadata)))
+    graphs = []
+    if 'graph' in op:
+        graphs.append(op['graph'])
+    if name == 'graph_ops':
+        graphs += op['graphs']
+    for node, md in trees:
+        for m in models:
+            try:
+                g = layout.interpret(Tree(node, metadata=md), py_model(m))
+                graphs.append(j_graph(g))
+            except Exception:  # noqa: BLE001
+                pass
+    jn = [(j_node(n), [[k, v] for k, v in md.items()]) for n, md in trees]
+    if pid == 'C01':
+        for n, md in jn:
+            for ind in (op.get('indent', -1), None, -1, 0, 3):
+                for c in (op.get('compact', False), True):
+                    cases.append((c01_check, {'tree': n, 'metadata': md, 'indent': ind, 'compact': c}))
+    elif pid == 'C02':
+        for n, md in jn:
+            for m in models:
+                cases.append((c02_check, {'tree': n, 'model': m, 'metadata': md}))
+    elif pid in ('C03', 'C06', 'C09'):
+        for g in graphs:
+            gg = py_graph(g)
+            tops = [op.get('top'), None] + sorted(v for v in gg.variables() if isinstance(v, str))[:4]
+            for m in models:
+                for top in tops:
+                    cases.append((c03_check, {'graph': g, 'model': m, 'top': top, 'indent': op.get('indent', -1), 'compact': op.get('compact', False)}))
+                    if pid == 'C06':
+                        cases.append((c06_total_check, {'graph': g, 'model': m, 'top': top}))
+        if pid == 'C09':
+            for g in graphs:
+                for sep in ('\n\n', '\n'):
+                    for nl in ('\n', '\r\n', '\r'):
+                        cases.append((c09_check, {'graphs': [g, g], 'indent': -1, 'sep': sep, 'nl': nl}))
+    elif pid == 'C04':
+        for n, md in jn:
+            for m in models + ['noop']:
+                cases.append((c04_check, {'tree': n, 'model': m}))
+    elif pid == 'C05':
+        for n, md in jn:
+            for m in models:
+                for key in gen.KEYS:
+                    for af in (False, True):
+                        cases.append((c05_check, {'tree': n, 'model': m, 'key': key, 'af': af, 'seed': 0, 'random': False}))
+    elif pid == 'C07':
+        for s in texts:
+            cases.append((c07_check, {'s': s}))
+            cases.append((c07_triples_check, {'s': s}))
+    elif pid == 'C08':
+        for s in texts:
+            for line in re.split(r'\r\n|\r|\n', s):
+                for mode in ('penman', 'triples'):
+                    cases.append((c08_check, {'line': line, 'mode': mode}))
+    elif pid == 'C10':
+        for n, md in jn:
+            for fmt in ([op['fmt']] if 'fmt' in op else []) + gen.FMTS[:7]:
+                for m in models:
+                    cases.append((c10_check, {'tree': n, 'fmt': fmt, 'model': m}))
+    elif pid in ('C11', 'C12'):
+        for g in graphs:
+            for m in models:
+                cases.append((c11_check, {'graph': g, 'model': m}))
+                for prog in (['reify_edges'], ['dereify_edges'], ['reify_attributes'], ['indicate_branches'],
+                             ['reify_edges', 'dereify_edges'], ['reify_edges', 'reify_attributes', 'indicate_branches']):
+                    cases.append((c12_check, {'graph': g, 'model': m, 'program': prog}))
+    elif pid == 'C13':
+        roles = [op['role']] if 'role' in op else []
+        if 'triple' in op:
+            roles.append(op['triple'][1])
+        for n, md in jn:
+            for node in all_nodes(py_node(n)):
+                roles += [r for r, _ in node[1]]
+        for m in models:
+            for r in roles or [':ARG0']:
+                cases.append((c13_check, {'model': m, 'role': r.partition('~')[0], 'tree': jn[0][0] if jn else ['a', []]}))
+    elif pid == 'C14':
+        for n, md in jn:
+            for m in ('default', 'amr'):
+                cases.append((c14_check, {'tree': n, 'model': m}))
+    elif pid == 'C15':
+        for g in graphs:
+            for h in graphs:
+                cases.append((c15_check, {'g': g, 'h': h, 'newtop': 'a'}))
+    elif pid == 'C16':
+        for g in graphs:
+            for m in models:
+                cases.append((c16_check, {'graph': g, 'model': m}))
+        if name == 'main':
+            cases.append((c16_cli_check, {'files': op['inputs'], 'model': op.get('model', 'amr')}))
+    elif pid == 'C17':
+        for g in graphs:
+            cases.append((c17_check, {'g': g, 'h': graphs[0], 'model': models[0] if models[0] in ('default', 'amr') else 'default',
+                                      'text': texts[0] if texts else '(a / b)'}))
+    elif pid == 'C18':
+        if name == 'quote':
+            v = py_atom(op['value'])
+            cases.append((c18_check, {'s': v if isinstance(v, str) else str(v), 'atom': ''}))
+        if name == 'evaluate' and isinstance(op.get('s'), str):
+            cases.append((c18_check, {'s': '', 'atom': op['s']}))
+        for s in texts:
+            cases.append((c18_check, {'s': s, 'atom': s}))
+    elif pid == 'C19':
+        lists = []
+        if 'triples' in op:
+            lists.append(op['triples'])
+        for s in texts:
+            try:
+                lists.append([list(t) for t in penman.parse_triples(s)])
+            except Exception:  # noqa: BLE001
+                pass
+        for g in graphs:
+            lists.append(g['triples'])
+        for ts in lists:
+            if all(isinstance(t[2], str) for t in ts):
+                for ind in (True, False):
+                    cases.append((c19_check, {'triples': ts, 'indent': ind, 'comma': ', ', 'caret': ' ^'}))
+    elif pid == 'C20':
+        if name == 'main':
+            for inp in op['inputs']:
+                cases.append((c20_check, {'opts': op.get('opts', {}), 'model': op.get('model', 'default'), 'input': inp}))
+        for s in texts:
+            for m in ('default', 'amr'):
+                cases.append((c20_check, {'opts': {}, 'model': m, 'input': s}))
+    return cases
